@@ -1,16 +1,17 @@
 """C08 The joint model prior equals the product of the conditional prior densities.  Mode P.
 
 A case is one (model, requested parameter list, part).  Models are plain data (vmc/ref/c08_ref.py): every
-assignment of distribution templates (constant / parameter-valued arguments, 0..4 arguments, argument given
-by name / scipy object / frozen object / elfi alias / hand-written ScipyLikeDistribution) to every graph
-shape with 1-3 parameters (independent, chain, fork, collider, full, mixed) x every naming (alphabetical
-order vs topological order) - requested lists: default, every permutation, every ancestrally closed subset
-in every order.  The runner builds the real ElfiModel and the real ModelPrior once and evaluates, per part,
+assignment of distribution templates (constant / parameter-valued arguments, 0..4 arguments, distribution
+given by name / scipy object / frozen object / elfi alias / hand-written ScipyLikeDistribution) to every
+graph shape with 1-3 parameters (independent, chain, fork, collider, full, mixed) x naming permutations
+(alphabetical order vs topological order) - requested lists: default, every permutation, every ancestrally
+closed subset in every order.  The runner builds the real ElfiModel and the real ModelPrior once and
+evaluates, per part,
 
   density : pdf and logpdf on the complete grid V^dim (interior, exact support end points, outside, +-inf)
             against the direct product of scipy.stats densities with the parents substituted,
   shapes  : scalar / 0-d / (1,) / (n,) / (n,1) / list / (dim,) / (1,dim) / (n,dim) / nested list / strided
-            view / integer dtype inputs: shape rule and the same values as the reference,
+            view / Fortran order / integer dtype inputs: shape rule and the same values as the reference,
   rvs     : sizes None,1,3 x RandomState seeds (+ global generator): shape rule, finite, positive density
             under elfi's own pdf and under the reference,
   grad    : gradient_logpdf (default / scalar / per-dimension stepsize; point, batch, integer input) against
@@ -32,6 +33,7 @@ RTOL_PDF = 1e-12       # same scipy factors, different multiplication order
 TOL_LOG = 1e-9         # sum of scipy logpdfs vs log of the product of scipy pdfs
 TOL_GRAD = 2e-6        # central difference (h <= 1e-4) vs closed form on the well-conditioned interior grid
 MARGIN = 0.01          # >= 100 h : gradient points keep this distance from every support end point
+SIG_L5 = 'C08:strict-subset:density-depends-on-unrequested-parameters'
 
 
 class _Viol(Exception):
@@ -118,7 +120,12 @@ def _call(witness, fn, *a, **kw):
         site = elfi_site(e.__traceback__)
         if site is None:
             raise
-        raise _Viol('C08:exception:%s@%s' % (type(e).__name__, site), {'exception': repr(e)[:300], 'witness': witness})
+        sig = 'C08:exception:%s@%s' % (type(e).__name__, site)
+        if getattr(fn, '__name__', '') in ('pdf', 'logpdf') and site.endswith(':rvs_from_distribution') and \
+                witness and R.req_class(witness['model'], witness['req']) == 'strict-subset':
+            # a density evaluation that *samples* a node: only an unrequested parameter can be sampled there
+            sig = SIG_L5
+        raise _Viol(sig, {'exception': repr(e)[:300], 'witness': witness})
 
 
 def _prior(model, req, witness=None):
@@ -141,7 +148,7 @@ def _point(model, req, method, x, **kw):
 
 
 # ------------------------------------------------------------------------------- comparison with the reference
-def _cmp_density(model, req, X, got, log, what='batch'):
+def _cmp_density(model, req, X, got, log, what='batch', prior=None):
     """Compare elfi's (log)pdf values at the rows of X with the reference.  -> (sig, detail) or None, counters."""
     order = _order(model, req)
     ref, any_zero, any_bad, on_b = R.joint_pdf(model, order, X)
@@ -150,6 +157,7 @@ def _cmp_density(model, req, X, got, log, what='batch'):
     name = 'logpdf' if log else 'pdf'
     if got.shape != ref.shape:
         return ('C08:%s:wrong-number-of-values' % name, {'got_shape': list(got.shape), 'n_points': len(ref)}), {}
+    XX = np.asarray(X, dtype=float).reshape(len(ref), -1)
     defined = ~any_bad                       # every conditional density is a finite number
     zero = defined & any_zero
     pos = defined & ~any_zero
@@ -166,18 +174,28 @@ def _cmp_density(model, req, X, got, log, what='batch'):
             bad_undef = ~defined & ~(np.isnan(got) | (got == 0) | (np.isinf(ref) & np.isinf(got)))
     cnt = {'pts_positive': int(pos.sum()), 'pts_zero': int(zero.sum()), 'pts_undefined': int((~defined).sum()),
            'pts_on_support_end': int((on_b & defined).sum()),
-           'pts_infinite_coordinate': int((~np.all(np.isfinite(np.asarray(X, dtype=float).reshape(len(ref), -1)),
-                                                   axis=1)).sum())}
+           'pts_infinite_coordinate': int((~np.all(np.isfinite(XX), axis=1)).sum())}
     for mask, kind in ((bad_pos, 'value-mismatch'), (bad_zero, 'zero-set-mismatch'), (bad_undef, 'undefined-point')):
         if mask.any():
             i = int(np.argmax(mask))
-            x = np.asarray(X, dtype=float).reshape(len(ref), -1)[i]
+            x = XX[i]
             fs, _ = R.factors(model, order, x)
             det = {'req': req, 'req_class': cls, 'x': R.enc_nested(x), 'elfi': R.enc(got[i]), 'reference': R.enc(exp[i]),
                    'factors': {k: R.enc(v[0]) for k, v in fs}, 'n_bad': int(mask.sum()), 'n_points': len(ref),
                    'evaluated_as': what,
                    'witness': _point(model, req, name, x if len(order) > 1 else float(x[0]))}
-            return ('C08:%s:%s:%s' % (name, cls, kind), det), cnt
+            sig = 'C08:%s:%s:%s' % (name, cls, kind)
+            if cls == 'strict-subset' and prior is not None:
+                # root-cause probe: identical rows of one batch must have identical densities
+                try:
+                    with np.errstate(all='ignore'):
+                        rep = np.asarray(getattr(prior, name)(np.tile(x, (4, 1))), dtype=float).reshape(-1)
+                    if len(set(rep.tolist())) > 1 or np.isnan(rep).any():
+                        sig = SIG_L5
+                        det['identical_rows_in_one_batch'] = R.enc_nested(rep)
+                except Exception as e:  # noqa
+                    det['probe_exception'] = repr(e)[:200]
+            return (sig, det), cnt
     return None, cnt
 
 
@@ -190,29 +208,29 @@ def _grid(V, d):
     return np.array(list(itertools.product(V, repeat=d)), dtype=float).reshape(-1, d)
 
 
-def _finish(fn):
-    """Runner wrapper: _Viol -> bad(); confirms that the single-point witness reproduces."""
-    def wrapper(case):
+def _runner(fn):
+    """_Viol -> bad(); the single-point witness of the detail is re-executed to confirm that it reproduces;
+    exceptions passing through the repo are handled by vmc.guard."""
+    def inner(case):
         try:
             return fn(case)
         except _Viol as v:
             det = dict(v.detail)
             w = det.get('witness')
-            if w is not None and w.get('kind') == 'point' and case.get('kind') != 'point':
+            if isinstance(w, dict) and w.get('kind') == 'point' and case.get('kind') != 'point':
                 try:
-                    r = run_point.__wrapped__(w)
-                    det['witness_reproduces'] = bool(r.get('viol')) and r['viol']['sig'] == v.sig
+                    _point_impl(w)
+                    det['witness_reproduces'] = False
                 except _Viol as v2:
                     det['witness_reproduces'] = v2.sig == v.sig
             return bad(v.sig, det)
-    wrapper.__name__ = fn.__name__
-    wrapper.__wrapped__ = fn
-    return wrapper
+    inner.__name__ = fn.__name__
+    inner.__doc__ = fn.__doc__
+    return guarded('C08')(inner)
 
 
 # ------------------------------------------------------------------------------- part: density
-@guarded('C08')
-@_finish
+@_runner
 def run_density(case):
     model, req = case['model'], case['req']
     V = [R.dec(v) for v in case['V']]
@@ -224,20 +242,21 @@ def run_density(case):
     X = _grid(V, d)
     w = {'kind': 'density', 'model': model, 'req': req, 'V': case['V']}
     got = _call(w, prior.pdf, X)
-    v, cnt = _cmp_density(model, req, X, got, log=False)
+    v, cnt = _cmp_density(model, req, X, got, log=False, prior=prior)
     _raise_if(v)
     gotl = _call(w, prior.logpdf, X)
-    v, _ = _cmp_density(model, req, X, gotl, log=True)
+    v, _ = _cmp_density(model, req, X, gotl, log=True, prior=prior)
     _raise_if(v)
     # logpdf is the logarithm of elfi's own pdf as well (not only of the reference)
     with np.errstate(all='ignore'):
         lg = np.log(np.asarray(got, dtype=float))
+    gotl = np.asarray(gotl, dtype=float)
     fin = np.isfinite(lg)
     if not np.array_equal(np.isneginf(lg), np.isneginf(gotl)) or \
             not np.all(np.abs(lg[fin] - gotl[fin]) <= TOL_LOG * (1 + np.abs(lg[fin]))):
         raise _Viol('C08:logpdf:not-log-of-own-pdf', {'req': req})
     n = len(X)
-    r = ok(outcome=digest((np.asarray(got), np.asarray(gotl))), points=2 * n, **cnt)
+    r = ok(outcome=digest((np.asarray(got), gotl)), **cnt)
     r.update(evals=2 * n, distinct=2 * (n - cnt['pts_undefined']))
     return r
 
@@ -245,7 +264,7 @@ def run_density(case):
 # ------------------------------------------------------------------------------- part: shapes
 def _pick_points(model, req, V):
     """A fixed small set of grid points: first positive-density points, first zero point, first point with an
-    infinite coordinate, plus the first positive integer-valued points."""
+    infinite coordinate (float forms) and the first positive / zero integer-valued points (integer forms)."""
     order = _order(model, req)
     X = _grid(V, len(order))
     ref, any_zero, any_bad, _ = R.joint_pdf(model, order, X)
@@ -257,7 +276,7 @@ def _pick_points(model, req, V):
     isint = np.all(X == np.round(X), axis=1) & fin
     ipos = np.flatnonzero(defined & ~any_zero & isint)
     izer = np.flatnonzero(defined & any_zero & isint)
-    sel = list(pos[:3]) + list(zer[:1]) + list(inf[:1])
+    sel = list(pos[:2]) + list(zer[:1]) + list(inf[:1])
     isel = list(ipos[:2]) + list(izer[:1])
     return X[sel], X[isel]
 
@@ -268,65 +287,75 @@ def _expect_shape(val, shape, sig_tail, detail):
         raise _Viol('C08:shape:' + sig_tail, dict(detail, got_shape=list(got), expected_shape=list(shape)))
 
 
-@guarded('C08')
-@_finish
+def _forms(P, PI, d, full):
+    """(form name, python input, the points it denotes, expected output shape).  full: every single-point form
+    at every selected point; otherwise the single-point forms are spread over the points."""
+    forms = []
+    if d == 1:
+        single = [('pyfloat', lambda p: float(p)), ('np0d', lambda p: np.array(float(p))),
+                  ('len1', lambda p: np.array([float(p)]))]
+        shapes1 = {'pyfloat': (), 'np0d': (), 'len1': (1,)}
+        for i, p in enumerate(P[:, 0]):
+            for j, (fname, mk) in enumerate(single):
+                if full or j == i % len(single):
+                    forms.append((fname, mk(p), [[p]], shapes1[fname]))
+        if len(P):
+            forms.append(('vec', np.array(P[:, 0]), P, (len(P),)))
+            forms.append(('col', np.array(P), P, (len(P),)))
+            forms.append(('list', [float(p) for p in P[:, 0]], P, (len(P),)))
+            forms.append(('view', np.repeat(P[:, 0], 2)[::2], P, (len(P),)))
+        for p in PI[:(len(PI) if full else 1), 0]:
+            forms.append(('pyint', int(p), [[p]], ()))
+        if len(PI):
+            forms.append(('intvec', PI[:, 0].astype(int), PI, (len(PI),)))
+    else:
+        single = [('vec', lambda p: np.array(p)), ('list', lambda p: [float(v) for v in p]),
+                  ('row', lambda p: np.array([p]))]
+        shapes1 = {'vec': (), 'list': (), 'row': (1,)}
+        for i, p in enumerate(P):
+            for j, (fname, mk) in enumerate(single):
+                if full or j == i % len(single):
+                    forms.append((fname, mk(p), [p], shapes1[fname]))
+        if len(P):
+            forms.append(('mat', np.array(P), P, (len(P),)))
+            forms.append(('nested', [[float(v) for v in p] for p in P], P, (len(P),)))
+            forms.append(('view', np.repeat(P, 2, axis=0)[::2], P, (len(P),)))
+            forms.append(('fortran', np.asfortranarray(P), P, (len(P),)))
+        for p in PI[:(len(PI) if full else 1)]:
+            forms.append(('intlist', [int(v) for v in p], [p], ()))
+        if len(PI):
+            forms.append(('intmat', PI.astype(int), PI, (len(PI),)))
+    return forms
+
+
+@_runner
 def run_shapes(case):
     model, req = case['model'], case['req']
     V = [R.dec(v) for v in case['V']]
-    order = _order(model, req)
-    d = len(order)
+    d = len(_order(model, req))
     prior = _prior(model, req)
     P, PI = _pick_points(model, req, V)
     n_calls = 0
-    n_trivial = 0
     outs = []
     for method in ('pdf', 'logpdf'):
         fn = getattr(prior, method)
-        log = method == 'logpdf'
-        forms = []          # (form name, python input, points as (k,d) array, expected output shape)
-        if d == 1:
-            for p in P[:, 0]:
-                forms.append(('pyfloat', float(p), [[p]], ()))
-                forms.append(('np0d', np.array(float(p)), [[p]], ()))
-                forms.append(('len1', np.array([float(p)]), [[p]], (1,)))
-            if len(P):
-                forms.append(('vec', np.array(P[:, 0]), P, (len(P),)))
-                forms.append(('col', np.array(P), P, (len(P),)))
-                forms.append(('list', [float(p) for p in P[:, 0]], P, (len(P),)))
-                forms.append(('view', np.repeat(P[:, 0], 2)[::2], P, (len(P),)))
-            for p in PI[:, 0]:
-                forms.append(('pyint', int(p), [[p]], ()))
-            if len(PI):
-                forms.append(('intvec', PI[:, 0].astype(int), PI, (len(PI),)))
-        else:
-            for p in P:
-                forms.append(('vec', np.array(p), [p], ()))
-                forms.append(('list', [float(v) for v in p], [p], ()))
-                forms.append(('row', np.array([p]), [p], (1,)))
-            if len(P):
-                forms.append(('mat', np.array(P), P, (len(P),)))
-                forms.append(('nested', [[float(v) for v in p] for p in P], P, (len(P),)))
-                forms.append(('view', np.repeat(P, 2, axis=0)[::2], P, (len(P),)))
-                forms.append(('fortran', np.asfortranarray(P), P, (len(P),)))
-            for p in PI:
-                forms.append(('intlist', [int(v) for v in p], [p], ()))
-            if len(PI):
-                forms.append(('intmat', PI.astype(int), PI, (len(PI),)))
-        for fname, inp, pts, shape in forms:
+        for fname, inp, pts, shape in _forms(P, PI, d, case.get('full', False)):
             pts = np.asarray(pts, dtype=float).reshape(-1, d)
             dtype = 'int' if fname.startswith(('int', 'pyint')) else 'float'
             wit = _point(model, req, method, inp, form=fname, dtype=dtype)
             val = _call(wit, fn, inp)
             n_calls += 1
+            # the values first (a wrong density is reported under the density signature), then the shape
+            if np.size(val) == len(pts):
+                v, _ = _cmp_density(model, req, pts, val, log=method == 'logpdf', what=fname, prior=prior)
+                if v is not None:
+                    v[1]['witness'] = wit
+                _raise_if(v)
             _expect_shape(val, shape, '%s:%s-input' % (method, fname),
                           {'req': req, 'input_shape': list(np.shape(inp)), 'witness': wit})
-            v, cnt = _cmp_density(model, req, pts, val, log=log, what=fname)
-            if v is not None:
-                v[1]['witness'] = wit
-            _raise_if(v)
             outs.append(np.asarray(val, dtype=float).reshape(-1))
     r = ok(outcome=digest(outs), shape_calls=n_calls)
-    r.update(evals=n_calls, distinct=n_calls - n_trivial)
+    r.update(evals=n_calls, distinct=n_calls)
     return r
 
 
@@ -350,37 +379,17 @@ def _check_draw(model, req, prior, draw, size, wit):
         raise _Viol('C08:rvs:draw-outside-support', {'req': req, 'draw': R.enc_nested(X[i]), 'witness': wit,
                                                      'reference_pdf': R.enc(ref[i])})
     val = _call(wit, prior.pdf, draw)
+    lval = _call(wit, prior.logpdf, draw)
+    v, _ = _cmp_density(model, req, X, val, log=False, what='rvs draw', prior=prior)
+    _raise_if(v)
     _expect_shape(val, () if size is None else (size,), 'pdf-of-rvs:size-%s' % size, {'req': req, 'witness': wit})
     val = np.asarray(val, dtype=float).reshape(-1)
     if not np.all(val > 0):
         raise _Viol('C08:rvs:draw-with-nonpositive-density', {'req': req, 'draw': R.enc_nested(X), 'witness': wit,
                                                               'elfi_pdf': R.enc_nested(val)})
-    lval = np.asarray(_call(wit, prior.logpdf, draw), dtype=float).reshape(-1)
-    if not np.all(np.isfinite(lval)):
+    if not np.all(np.isfinite(np.asarray(lval, dtype=float))):
         raise _Viol('C08:rvs:draw-with-nonfinite-logdensity', {'req': req, 'draw': R.enc_nested(X), 'witness': wit})
-    v, _ = _cmp_density(model, req, X, val, log=False, what='rvs draw')
-    _raise_if(v)
     return X
-
-
-@guarded('C08')
-@_finish
-def run_rvs(case):
-    model, req = case['model'], case['req']
-    order = _order(model, req)
-    prior = _prior(model, req)
-    n = 0
-    draws = []
-    for size in (None, 1, 3):
-        for seed in case['seeds']:
-            for mode in (('rs', 'global') if seed == case['seeds'][0] else ('rs',)):
-                wit = {'kind': 'point', 'model': model, 'req': req, 'method': 'rvs', 'size': size, 'seed': seed,
-                       'mode': mode}
-                draws.append(_one_rvs(model, req, prior, size, seed, mode, wit))
-                n += 1
-    r = ok(outcome=digest(draws), rvs_calls=n)
-    r.update(evals=n, distinct=n)
-    return r
 
 
 def _one_rvs(model, req, prior, size, seed, mode, wit):
@@ -394,6 +403,24 @@ def _one_rvs(model, req, prior, size, seed, mode, wit):
     else:
         draw = _call(wit, prior.rvs, size, np.random.RandomState(seed))
     return _check_draw(model, req, prior, draw, size, wit)
+
+
+@_runner
+def run_rvs(case):
+    model, req = case['model'], case['req']
+    prior = _prior(model, req)
+    n = 0
+    draws = []
+    for size in (None, 1, 3):
+        for k, seed in enumerate(case['seeds']):
+            for mode in (('rs', 'global') if k == 0 and size in case['global_sizes'] else ('rs',)):
+                wit = {'kind': 'point', 'model': model, 'req': req, 'method': 'rvs', 'size': size, 'seed': seed,
+                       'mode': mode}
+                draws.append(_one_rvs(model, req, prior, size, seed, mode, wit))
+                n += 1
+    r = ok(outcome=digest(draws), rvs_calls=n)
+    r.update(evals=n, distinct=n)
+    return r
 
 
 # ------------------------------------------------------------------------------- part: grad
@@ -411,15 +438,14 @@ def _cmp_grad(model, req, x, got, what, wit, h):
     order = _order(model, req)
     exp = R.joint_grad(model, order, x)
     got = np.asarray(got, dtype=float).reshape(-1)
-    if not np.all(np.abs(got - exp) <= TOL_GRAD * (1 + np.abs(exp))):
+    if got.shape != exp.shape or not np.all(np.abs(got - exp) <= TOL_GRAD * (1 + np.abs(exp))):
         raise _Viol('C08:gradient_logpdf:%s' % what,
                     {'req': req, 'x': R.enc_nested(x), 'elfi': R.enc_nested(got), 'reference': R.enc_nested(exp),
                      'stepsize': h, 'witness': wit})
     return float(np.max(np.abs(got - exp) / (1 + np.abs(exp))))
 
 
-@guarded('C08')
-@_finish
+@_runner
 def run_grad(case):
     model, req, h = case['model'], case['req'], case['h']
     Vg = [R.dec(v) for v in case['Vg']]
@@ -428,26 +454,28 @@ def run_grad(case):
     X = _grid(Vg, d)
     X = X[R.interior_mask(model, order, X, MARGIN)]
     if len(X) == 0:
-        return ok(outcome='no-interior-point', trivial=True, grad_no_interior_point=1)
+        return ok(outcome='no-interior-point', trivial=True, grad_cases_without_interior_point=1)
     prior = _prior(model, req)
     step = _stepsize(h, d)
     cls = R.req_class(model, req)
-    # the gradient is judged only where the log density itself is right (same signature as part density)
-    lg = _call({'kind': 'grad', 'model': model, 'req': req, 'h': h, 'Vg': case['Vg']}, prior.logpdf, X)
-    v, _ = _cmp_density(model, req, X, lg, log=True, what='gradient points')
-    _raise_if(v)
+    # the gradient is judged only where the density itself is right (reported under the density signature)
+    w = {'kind': 'grad', 'model': model, 'req': req, 'h': h, 'Vg': case['Vg']}
+    for log in (False, True):
+        val = _call(w, prior.logpdf if log else prior.pdf, X)
+        v, _ = _cmp_density(model, req, X, val, log=log, what='gradient points', prior=prior)
+        _raise_if(v)
     n = 0
     err = 0.0
     # batch of points
-    wit = _point(model, req, 'gradient_logpdf', X, h=h, form='mat')
+    wit = _point(model, req, 'gradient_logpdf', X if d > 1 else X[:, 0], h=h, form='mat')
     G = _call(wit, prior.gradient_logpdf, X if d > 1 else X[:, 0], stepsize=step)
     _expect_shape(G, (len(X), d), 'gradient_logpdf:batch-input', {'req': req, 'witness': wit})
     for x, g in zip(X, np.asarray(G, dtype=float).reshape(len(X), d)):
-        w1 = _point(model, req, 'gradient_logpdf', [x], h=h, form='mat')
+        w1 = _point(model, req, 'gradient_logpdf', [x] if d > 1 else [x[0]], h=h, form='mat')
         err = max(err, _cmp_grad(model, req, x, g, '%s:derivative-mismatch' % cls, w1, h))
         n += 1
-    # single points (the first two) in point form
-    for x in X[:2]:
+    # single points in point form
+    for x in X[:case.get('n_single', 1)]:
         inp = np.array(x) if d > 1 else float(x[0])
         wit = _point(model, req, 'gradient_logpdf', inp, h=h, form='point')
         g = _call(wit, prior.gradient_logpdf, inp, stepsize=step)
@@ -472,12 +500,9 @@ def run_grad(case):
 
 
 # ------------------------------------------------------------------------------- one sub-case (witness replay)
-@guarded('C08')
-@_finish
-def run_point(case):
+def _point_impl(case):
     model, req, method = case['model'], case['req'], case['method']
-    order = _order(model, req)
-    d = len(order)
+    d = len(_order(model, req))
     prior = _prior(model, req, witness=case)
     if method == 'construct':
         return ok(outcome='constructed')
@@ -490,7 +515,7 @@ def run_point(case):
         inp = int(x) if not isinstance(x, list) else np.array(x).astype(int).tolist()
         if form in ('intvec', 'intmat'):
             inp = np.array(inp, dtype=int)
-    elif form in ('pyfloat',) or (form in (None, 'point') and not isinstance(x, list)):
+    elif form == 'pyfloat' or (form in (None, 'point') and not isinstance(x, list)):
         inp = float(x)
     elif form in ('list', 'nested'):
         inp = x
@@ -503,7 +528,7 @@ def run_point(case):
     pts = np.asarray(x, dtype=float).reshape(-1, d)
     if method in ('pdf', 'logpdf'):
         val = _call(case, getattr(prior, method), inp)
-        v, _ = _cmp_density(model, req, pts, val, log=method == 'logpdf', what=form or 'point')
+        v, _ = _cmp_density(model, req, pts, val, log=method == 'logpdf', what=form or 'point', prior=prior)
         if v is not None:
             v[1]['witness'] = case
         _raise_if(v)
@@ -523,6 +548,7 @@ def run_point(case):
     raise ValueError(method)
 
 
+run_point = _runner(_point_impl)
 RUNNERS = {'density': run_density, 'shapes': run_shapes, 'rvs': run_rvs, 'grad': run_grad, 'point': run_point}
 
 
@@ -537,32 +563,33 @@ RQ = ['u', 'n', 'e', 'b', 't']
 
 
 def model_family(q):
-    """-> list of (family name, model).  Full products inside each family; sizes are reported per family."""
+    """-> list of (family name, model, lite).  Full products inside each family; sizes are reported per family.
+    lite = first naming, first form pattern, first tail value of the family (the sub-family on which the
+    shapes / grad parts and the non-default rvs requests run)."""
     out = []
     all_roots = list(R.ROOTS)
     all_c1 = list(R.CHILD1)
     all_c2 = list(R.CHILD2)
 
-    def add(fam_name, shape, roots, c1, c2, namings, form_patterns, tails):
-        n = len(R.SHAPES[shape])
+    def add(fam_name, shape, roots, c1, c2, namings, form_patterns, tails, all_lite=False):
         for assign in R.enum_templates(R.SHAPES[shape], roots, c1, c2):
             for naming in namings:
                 for forms in form_patterns:
                     for tail in tails:
-                        out.append((fam_name, R.make_model(assign, naming, forms, tail)))
-        return n
+                        lite = all_lite or (naming == namings[0] and forms == form_patterns[0] and tail == tails[0])
+                        out.append((fam_name, R.make_model(assign, naming, forms, tail), lite))
 
-    perm2 = [('a', 'b'), ('b', 'a')]
-    perm3 = list(itertools.permutations('abc'))
+    perm2 = [('b', 'a'), ('a', 'b')]
+    perm3 = [('c', 'b', 'a')] + [p for p in itertools.permutations('abc') if p != ('c', 'b', 'a')]
     # one parameter: every root template in every form
-    add('I1', 'I1', all_roots, [], [], [('a',)], [('name',), ('obj',), ('frozen',), ('alias',)], [False])
+    add('I1', 'I1', all_roots, [], [], [('a',)], [('name',), ('obj',), ('frozen',), ('alias',)], [False], all_lite=True)
     if q:
         add('I2', 'I2', RQ, [], [], [('a', 'b')], [('name', 'obj')], [False])
         add('CH2', 'CH2', RQ + ['r'], all_c1, [], perm2, [('name', 'obj'), ('frozen', 'name')], [False])
         c1 = ['nP1', 'u0P', 'bP2', 'tP1', 'e0P']
         c2 = ['nPQ', 'uPQ', 'bPQ']
         r3 = ['u', 'n']
-        nm3 = [('a', 'b', 'c'), ('c', 'b', 'a'), ('b', 'c', 'a')]
+        nm3 = [('c', 'b', 'a'), ('a', 'b', 'c'), ('b', 'c', 'a')]
         fp3 = [('name', 'obj', 'name')]
         add('I3', 'I3', ['u', 'n', 'e'], [], [], [('a', 'b', 'c')], fp3, [False])
         add('CH3', 'CH3', r3, c1, c2, nm3, fp3, [True])
@@ -586,47 +613,65 @@ def model_family(q):
     # drop duplicates produced by form normalisation (frozen/alias fall back to obj/name where not applicable)
     seen = set()
     uniq = []
-    for fam_name, m in out:
+    for fam_name, m, lite in out:
         k = digest(m)
         if k not in seen:
             seen.add(k)
-            uniq.append((fam_name, m))
+            uniq.append((fam_name, m, lite))
     return uniq
+
+
+def _grad_requests(m, q):
+    """Requests of the grad part: default, every closed subset in sorted order, the reversed full list
+    (thorough: every closed request)."""
+    closed = [r for r in R.requests(m) if R.is_closed(m, r)]
+    if not q:
+        return [None] + closed
+    full = sorted(R.names(m))
+    out = [None] + [r for r in closed if r == sorted(r)]
+    if len(full) > 1:
+        out.append(full[::-1])
+    return out
 
 
 def run(ctx):
     q = ctx.quick
     n_self = R.selftest()
     V = [R.enc(v) for v in (V_QUICK if q else V_THOROUGH)]
+    Vfin = [v for v in V if isinstance(v, float)]
     base = ctx.seed * 1000
-    seeds = [base + k for k in range(2 if q else 4)]
+    seeds = [base + k for k in range(1 if q else 3)]
     fam = model_family(q)
     per_family = {}
     dens, shp, rvs, grd = [], [], [], []
     n_open = 0
-    for fam_name, m in fam:
-        per_family[fam_name] = per_family.get(fam_name, 0) + 1
+    for fam_name, m, lite in fam:
+        pf = per_family.setdefault(fam_name, {'models': 0, 'lite': 0})
+        pf['models'] += 1
+        pf['lite'] += int(lite)
         d_all = len(m['nodes'])
-        reqs = [None] + R.requests(m)
-        for req in reqs:
+        for req in [None] + R.requests(m):
             if req is not None and not R.is_closed(m, req):
                 n_open += 1
                 continue
-            d = d_all if req is None else len(req)
             dens.append({'kind': 'density', 'model': m, 'req': req, 'V': V})
-            shp.append({'kind': 'shapes', 'model': m, 'req': req, 'V': V})
-            rvs.append({'kind': 'rvs', 'model': m, 'req': req, 'seeds': seeds})
-            if q:
-                Vg = {1: [v for v in V if isinstance(v, float)], 2: [0.75, 1.0, 1.5, 2.0], 3: [1.0, 1.5, 2.0]}[d]
-            else:
-                Vg = {1: [v for v in V if isinstance(v, float)], 2: [0.75, 1.0, 1.25, 1.5, 2.0, 3.0],
-                      3: [0.75, 1.0, 1.5, 2.0]}[d]
-            sorted_req = req is None or req == sorted(req)
-            hs = [None, 1e-4, 'list'] if sorted_req else [None]
-            if not q and sorted_req:
-                hs.append('array')
-            for h in hs:
-                grd.append({'kind': 'grad', 'model': m, 'req': req, 'h': h, 'Vg': Vg})
+            if lite:
+                shp.append({'kind': 'shapes', 'model': m, 'req': req, 'V': V, 'full': not q})
+            if lite or req is None:
+                rvs.append({'kind': 'rvs', 'model': m, 'req': req, 'seeds': seeds,
+                            'global_sizes': [None] if q else [None, 1, 3]})
+        if lite:
+            for req in _grad_requests(m, q):
+                d = d_all if req is None else len(req)
+                if q:
+                    Vg = {1: Vfin, 2: [0.75, 1.0, 1.5, 2.0], 3: [1.0, 1.5, 2.0]}[d]
+                else:
+                    Vg = {1: Vfin, 2: [0.75, 1.0, 1.25, 1.5, 2.0, 3.0], 3: [0.75, 1.0, 1.5, 2.0]}[d]
+                hs = [None]
+                if req is None:
+                    hs += [1e-4, 'list'] + ([] if q else ['array'])
+                for h in hs:
+                    grd.append({'kind': 'grad', 'model': m, 'req': req, 'h': h, 'Vg': Vg, 'n_single': 1 if q else 3})
     ctx.count(models=len(fam), requests_not_ancestrally_closed_excluded=n_open, reference_selftest_derivatives=n_self)
     ctx.extra['models_per_family'] = per_family
     ctx.extra['grid_values'] = V
@@ -646,9 +691,11 @@ def run(ctx):
                 'constants / parent-valued loc, scale, shape / 0-4 arguments], naming permutation, form pattern '
                 '[name|scipy object|frozen|alias|hand-written class], downstream simulator yes/no) x requested list '
                 '(default, every permutation, every ancestrally closed subset in every order) x part; density: every '
-                'point of V^dim (evaluations = points x {pdf,logpdf}; non-trivial = every conditional density of the '
-                'reference is a finite number at the point; distinct by construction of the grid); shapes/rvs/grad: '
-                'evaluations = real ModelPrior calls compared with the reference')
+                'point of V^dim on every model (evaluations = points x {pdf,logpdf}; non-trivial = every conditional '
+                'density of the reference is a finite number at the point; distinct by construction of the grid); '
+                'shapes and grad on the lite sub-family (first naming / form pattern of each family), rvs on every '
+                'model for the default request and on the lite sub-family for every request; there evaluations = real '
+                'ModelPrior calls compared with the reference')
     ctx.assumptions += [
         'reference = direct product of scipy.stats densities with the parent values substituted (rayleigh for the '
         'hand-written family); pdf compared with rtol %g (multiplication order), logpdf with %g*(1+|ref|), zero and '
@@ -659,14 +706,14 @@ def run(ctx):
         'shape, infinite parent value, beta shape < 1 at its end point) are undefined: nan or 0 (nan or -inf for '
         'logpdf) are both accepted there and the point is counted as trivial',
         'only hierarchies whose parent supports keep scale/shape arguments in [0.5, inf) are enumerated (otherwise '
-        'rvs itself is undefined)',
+        'rvs itself is undefined); a node used twice as argument of one child (norm(a, a)) is excluded: the model '
+        'graph cannot represent it (one edge per node pair), which is outside this statement',
         'gradient points: interior grid points with positive finite reference density at the point and at +-%g along '
         'every axis; |elfi - closed form| <= %g*(1+|ref|); stepsizes None, 1e-4, per-dimension list 1e-5*2^j'
         % (MARGIN, TOL_GRAD),
         'shape rule demanded: pdf/logpdf of one point (scalar for dim 1, (dim,) for dim > 1) is 0-d, of n points '
         '(n,); gradient of one point (dim,), of n points (n,dim); rvs size None -> () or (dim,), size n -> (n,) or '
         '(n,dim) (the convention of the repo\'s own distribution_test fixture)',
-        'grid values %s' % V,
         'closed-form derivatives of the reference verified against a 5-point stencil of scipy logpdf at start-up '
         '(%d partial derivatives)' % n_self,
     ]
